@@ -1226,6 +1226,6 @@ func main() {
 		"events whose append failed are not 'persisted events' and are not accounted",
 		"durable-streams has no SubscriptionStore: a separate MemoryStore keeps the offsets",
 	}, run, replay, func(tier string) map[string]any {
-		return map[string]any{"rule": "every history over {publish A, publish B, SubscribeWithReplay(id1), SubscribeWithReplay(id2), restart} up to depth 4 (quick) / 6 memory, 5 others (thorough) that publishes A and subscribes, followed by a draining restart; for every history up to depth 3/4 a fault of each kind {error, crash-before, crash-after} at every store operation of the fault-free run; schedules of SubscribeWithReplay racing 1-2 publishes up to the preemption bound; all cases distinct by construction"}
+		return map[string]any{"rule": "every history over {publish A, publish B, SubscribeWithReplay(id1), SubscribeWithReplay(id2), restart} up to depth 4 (quick) / 6 memory, 5 others (thorough) that publishes A and subscribes, followed by a draining restart; for every history up to depth 3/4 a fault of each kind {error, crash-before, crash-after} at every store operation of the fault-free run; schedules of SubscribeWithReplay racing 1-2 publishes, and of two ids replaying one log from different saved offsets (as two tasks, and nested), up to the preemption bound; the event's JSON form has members that only odd events carry, so that a delivery decoded over another event's value is seen; all cases distinct by construction"}
 	})
 }
